@@ -377,6 +377,9 @@ class Report:
               "assumptions": self.assumptions, "wall_s": round(time.time() - self.t0, 2),
               "violations": len(seen)}
         ev.update(self.notes)
+        os.makedirs(BUILD, exist_ok=True)
+        with open(os.path.join(BUILD, "last_signatures_%s.json" % self.prop), "w") as f:
+            json.dump([json.loads(k) for k in seen], f)
         with open(os.path.join(EVIDENCE, self.prop + ".json"), "w") as f:
             json.dump(ev, f, indent=1, default=str)
         return 1 if self.violations else 0
